@@ -62,7 +62,7 @@ func (h *History) CheckC06(snaps SnapshotFn, ctl []*CtlResult) []Violation {
 	var out []Violation
 	var call *CtlResult
 	for _, c := range ctl {
-		if (c.Kind == "stopandwait" || c.Kind == "stopwait") && c.Returned && c.Err == "" {
+		if (c.Kind == "stopandwait" || c.Kind == "stopwait" || c.Kind == "stopallwait") && c.Returned && c.Err == "" {
 			call = c
 			break
 		}
